@@ -1,5 +1,6 @@
 import GBProofs.Props.C12
 import GBProofs.RigidMotion
+import GBProofs.TraceLaws
 /-!
 # C12 — covariance under every rigid motion (translations, proper and improper rotations)
 
@@ -16,12 +17,14 @@ import GBProofs.RigidMotion
   (block of the moved shells = representation matrices applied to the block of the original shells) and
   the translation invariance of the Coulomb-type blocks, `pointChargeBlock_translate`, `eriBlock_translate`,
   which `TranslationLaws.lean` (tables of the one-dimensional recursions) does not cover.
-Not proved: rotation covariance of the kinetic / momentum / moment blocks (needs covariance of gradients
-and moment tensors) and spherical shells (`T D T⁺`); both are checked on the implementation.
+`TraceLaws.lean` adds the kinetic block: `kineticBlock_moved` (through `T_ab = ½∫∇φ_a·∇φ_b` and the covariance of
+`∇ψ₁·∇ψ₂` under an affine isometry, `covDot_fderiv_moved`).  Not proved: rotation covariance of the momentum /
+moment blocks (vector and tensor components) and spherical shells (`T D T⁺`); both are checked on the implementation.
 -/
 namespace GB.C12
 alias block_covariant_overlap := overlapBlock_moved
 alias block_covariant_point_charge := pointChargeBlock_moved
 alias block_covariant_eri := eriBlock_moved
+alias block_covariant_kinetic := kineticBlock_moved
 alias cartesian_shell_representation := shellFnE_moved
 end GB.C12
